@@ -289,13 +289,18 @@ def advertised(prog: Program) -> dict[str, Any]:
 # ------------------------------------------------------------------------------------------ enforced
 def enforced(prog: Program) -> dict[str, Any]:
     """{'fn': _get_bounds, 'terms': PowerBounds field -> aggregation term}  (also used by C02.ADM)."""
-    from ._admission import bounds_source
+    from ._admission import bounds_source_or_none, check_request_fn
 
-    fn = bounds_source(prog)                       # `_get_bounds`, bound by role
-    own = [p for p in fn.params if p not in ("self", "cls")]
-    if len(own) != 1:
-        raise AnalysisError(f"{fn.qual}: expected the pairs data as the only parameter, found {own}")
-    pairs = own[0]
+    src = bounds_source_or_none(prog)              # `_get_bounds`, bound by role
+    if src is not None:
+        fn = src
+        own = [p for p in fn.params if p not in ("self", "cls")]
+        if len(own) != 1:
+            raise AnalysisError(f"{fn.qual}: expected the pairs data as the only parameter, found {own}")
+        pairs = own[0]
+    else:                                          # inlined: the record the request check rejects with
+        fn = check_request_fn(prog)
+        pairs = fn.params[2]
     node = prepared(prog, fn)
     pair_fields = record_fields(prog, BDA_MOD, "InvBatPair")
     pb_fields = record_fields(prog, RESULT_MOD, "PowerBounds")
@@ -319,11 +324,16 @@ def enforced(prog: Program) -> dict[str, Any]:
                 leaf_bat=leaf_bat, leaf_inv=leaf_inv)
     per_return = []
     for p in returns_of(node, fn.qual):
-        r = p.ret
-        if not (isinstance(r, ast.Call) and _callee(r) == "PowerBounds"):
-            raise AnalysisError(f"{fn.qual}: PowerBounds(...) not found")
-        a = positional(r, pb_fields)
-        per_return.append({f: agg_term(fold_loops(node, v), side) for f, v in a.items() if f in pb_fields})
+        if src is not None:
+            recs = [p.ret]
+        else:
+            oob = record_fields(prog, RESULT_MOD, "OutOfBounds")
+            recs = [positional(c.node, oob).get("bounds") for c in p.calls(lambda c: _callee(c) == "OutOfBounds")]  # type: ignore[arg-type]
+        for r in recs:
+            if not (isinstance(r, ast.Call) and _callee(r) == "PowerBounds"):
+                raise AnalysisError(f"{fn.qual}: PowerBounds(...) not found")
+            a = positional(r, pb_fields)
+            per_return.append({f: agg_term(fold_loops(node, v), side) for f, v in a.items() if f in pb_fields})
     if not per_return:
         raise AnalysisError(f"{fn.qual}: PowerBounds(...) not found")
     return {"fn": fn, "terms": _agree(per_return)}
@@ -332,7 +342,11 @@ def enforced(prog: Program) -> dict[str, Any]:
 def min_power_shape_ok(prog: Program) -> tuple[Any, bool]:
     """min_power_g == max(battery exclusion, min_i inverter exclusion) in the availability ratio
     (battery = the group's aggregate, i ranges over exactly the group's inverters)."""
-    ar = prog.func(f"{BDA_MOD}:BatteryDistributionAlgorithm._compute_battery_availability_ratio")
+    from ._admission import method_by_role
+
+    ar = method_by_role(prog, f"{BDA_MOD}:BatteryDistributionAlgorithm", "_compute_battery_availability_ratio",
+                        lambda m: any(isinstance(c, ast.Call) and _callee(c) == "AvailabilityRatio" for c in ast.walk(m.node)),
+                        "builds the AvailabilityRatio records (minimum power of a group)")
     if len(ar.params) != 4:
         raise AnalysisError(f"{ar.qual}: expected (self, components, available_soc, excl_bounds)")
     comps, excl = ar.params[1], ar.params[3]
@@ -409,10 +423,38 @@ def _aggregate_input_ok(prog: Program) -> tuple[Any, bool]:
     return abd, ok and n > 0
 
 
+def _pair_data_fn(prog: Program) -> Any:
+    """Role of `_get_battery_inverter_data`: the BatteryManager method (self, battery ids, inverter ids)
+    that builds the InvBatPair of one group."""
+    from ._admission import method_by_role
+
+    return method_by_role(prog, f"{BMM}:BatteryManager", "_get_battery_inverter_data",
+                          lambda m: len(m.params) == 3 and any(
+                              isinstance(c, ast.Call) and _callee(c) == "InvBatPair" for c in ast.walk(m.node)),
+                          "builds the InvBatPair of one battery group")
+
+
+def _components_data_fn(prog: Program, gbi: Any) -> Any:
+    """Role of `_get_components_data`: the (outermost) BatteryManager method that loops over the battery
+    groups fetching each group's pair (itself or through a private method it calls)."""
+    from ._admission import check_request_fn, method_by_role, reach
+
+    chk = check_request_fn(prog)
+
+    def collects(m: Any) -> bool:
+        if m.node is gbi.node or any(r.node is chk.node for r in reach(prog, m)):
+            return False                                # not the request handler that calls both
+        return any(isinstance(lp, ast.For) and find_calls(lp, lambda c: method_call(c, None, gbi.name))
+                   for f in reach(prog, m, 2) for lp in ast.walk(f.node))
+
+    return method_by_role(prog, f"{BMM}:BatteryManager", "_get_components_data", collects,
+                          "collects the (battery, inverters) data pairs of the requested groups")
+
+
 def _pair_data_ok(prog: Program) -> tuple[Any, bool]:
     """_get_battery_inverter_data(batteries, inverters) -> InvBatPair(AggregatedBatteryData(latest data of
     every battery given), latest data of every inverter given)."""
-    gbi = prog.func(f"{BMM}:BatteryManager._get_battery_inverter_data")
+    gbi = _pair_data_fn(prog)
     if len(gbi.params) != 3:
         raise AnalysisError(f"{gbi.qual}: expected (self, battery_ids, inverter_ids)")
     me, bids, iids = gbi.params
@@ -450,9 +492,9 @@ def _enforced_groups(prog: Program) -> tuple[Any, bool, bool, bool]:
     """_get_components_data: (fn, groups form a set of _bat_bats_map images, every group's data is read
     for the whole group and the inverters of one of its batteries, every group's pair is appended to the
     returned list unless its data is None)."""
-    gcd = prog.func(f"{BMM}:BatteryManager._get_components_data")
+    gbi = _pair_data_fn(prog)
+    gcd = _components_data_fn(prog, gbi)
     node = prepared(prog, gcd)
-    gbi = prog.func(f"{BMM}:BatteryManager._get_battery_inverter_data")
 
     def is_data_call(c: ast.Call) -> bool:
         return method_call(c, gcd.params[0], gbi.name)
@@ -863,13 +905,13 @@ def structural_controls(prog: Program) -> list[tuple[str, str, str, str, str]]: 
     # 10. the group's pair is not appended to the returned list (the loop that fetches the group's data,
     #     in whichever method of the manager it lives)
     apps = [st for m in gb.methods.values() for lp in ast.walk(m.node) if isinstance(lp, ast.For)
-            and find_calls(lp, lambda c: method_call(c, None, "_get_battery_inverter_data"))
+            and find_calls(lp, lambda c: method_call(c, None, _pair_data_fn(prog).name))
             for st in ast.walk(lp) if isinstance(st, ast.Expr) and isinstance(st.value, ast.Call)
             and method_call(st.value, None, "append") and isinstance(st.value.func.value, ast.Name)]  # type: ignore[attr-defined]
     if len(apps) == 1:
         add(CONTROLS[9][0], BMM, [(apps[0], "pass")])
     # 11. a NaN test that drops the group is inverted
-    gbi = gb.methods.get("_get_battery_inverter_data")
+    gbi = _pair_data_fn(prog)
     if gbi is not None:
         drops = sorted((i.lineno, i.test) for i in walk_no_nested(gbi.node) if isinstance(i, ast.If) and not i.orelse
                        and isinstance(i.test, ast.Call) and isinstance(i.body[-1], ast.Return)
